@@ -13,6 +13,9 @@ structure CRow where
   entries : List REntry
   line : Nat
   upd : Bool
+  /-- the input columns whose `X` was expanded to give this row (`expand_x`): for the expected side they still hold the
+  row's `X` (fix F23) -/
+  xcols : List Nat := []
   deriving DecidableEq, Repr, Inhabited
 
 structure LoopState where
@@ -72,7 +75,7 @@ def step : It → Ctx → StepRes
         | .panic m => .panic m
       | .row data line =>
         match evalRow data c with
-        | .ok (es, c') => .yield ⟨es, line, true⟩ (.mk rest' .iterate) c'
+        | .ok (es, c') => .yield { entries := es, line := line, upd := true } (.mk rest' .iterate) c'
         | .err er => .err er
         | .panic m => .panic m
       | .loop var max body =>
